@@ -51,7 +51,7 @@ type reqScn struct {
 	ctxs  []mangos.Context   // nil for index 0
 	pctxs []protocol.Context // same, protocol level (for the snapshot)
 	pipes map[string]*vt.Pipe
-	id2p  map[uint32]string
+	ids   *hx.IDMap
 	npipe int
 	base  uint32
 	hist  [][]uint32 // per context: request ids seen (real)
@@ -100,10 +100,10 @@ func (c *reqScn) snap() {
 		sq = append(sq, c.cname(i))
 	}
 	for _, id := range sn.ReadyQ {
-		rq = append(rq, c.id2p[id])
+		rq = append(rq, c.ids.Name(id))
 	}
 	for _, id := range sn.Pipes {
-		ps = append(ps, c.id2p[id])
+		ps = append(ps, c.ids.Name(id))
 	}
 	sort.Strings(ps)
 	kv := []interface{}{"closed", sn.Closed, "next", c.abs(sn.NextID), "ids", ids,
@@ -119,7 +119,7 @@ func (c *reqScn) snap() {
 		}
 		lp := "-"
 		if x.LastPipe != 0 {
-			lp = c.id2p[x.LastPipe]
+			lp = c.ids.Name(x.LastPipe)
 		}
 		kv = append(kv, c.cname(i), map[string]interface{}{"rid": rid, "req": x.HasReq, "snd": x.HasSend,
 			"rep": x.HasRep, "queued": x.Queued, "rw": x.RecvWait, "closed": x.Closed, "lp": lp})
@@ -289,12 +289,13 @@ func setCtxOpts(set func(string, interface{}) error, o reqCtxOpt) {
 func runReq(t *testing.T, cfg reqCfg) sim.Result {
 	return sim.Run(t, 10*time.Second, func(s *sim.S) {
 		defer withLedger(s.Rec)()
-		c := &reqScn{s: s, cfg: cfg, pipes: map[string]*vt.Pipe{}, id2p: map[uint32]string{}}
+		baseIDs := hx.BaseIDs()
+		c := &reqScn{s: s, cfg: cfg, pipes: map[string]*vt.Pipe{}, ids: hx.NewIDMap()}
 		s.Net.Decode = c.decode
 		c.proto = req.NewProtocol()
 		rp := &hx.RecProto{Protocol: c.proto, Rec: s.Rec, Early: true}
 		c.sock = protocol.MakeSocket(rp)
-		hx.Hook(c.sock, s.Rec, func(ev, name string, p mangos.Pipe) { c.id2p[p.ID()] = name })
+		hx.Hook(c.sock, s.Rec, func(ev, name string, p mangos.Pipe) { c.ids.Set(p.ID(), name) })
 		c.base = req.VerifSnapshot(c.proto, nil).NextID
 		// contexts inherit from the socket at OpenContext time: set the
 		// socket's (default context's) options last
@@ -334,6 +335,7 @@ func runReq(t *testing.T, cfg reqCfg) sim.Result {
 		g := sim.Census()
 		sort.Strings(g)
 		s.Rec.Emit("census", "n", len(g), "g", fmt.Sprint(g))
+		hx.Final(s.Rec, c.sock, baseIDs)
 	})
 }
 
@@ -492,6 +494,7 @@ func TestReq(t *testing.T) {
 		if out.Stop() {
 			break
 		}
+		cfg.Steps = closeMix(cfg.Steps, rng, []string{"send c0", "recv c0", "send c1", "recv c1", "conn", "cclose c1", "adv 1s", "recv c0", "send c0", "sclose"})
 		res := runReq(t, cfg)
 		out.Add(fmt.Sprintf("req-%d", i), reqCfgEv(cfg), fmt.Sprint(cfg), res)
 	}
